@@ -9,7 +9,6 @@
 package main
 
 import (
-	"bytes"
 	"encoding/json"
 	"flag"
 	"fmt"
@@ -189,6 +188,9 @@ func worker(id, tier string, idx, W int, seed int64, out string) {
 	}
 	known := loadKnown()
 	start := time.Now()
+	if os.Getenv("VERIF_STACK_X2") != "" {
+		debug.SetMaxStack(2 << 30) // see triage in driver
+	}
 	wo := &WorkerOut{Stats: NewStats(), KnownHits: map[int]int64{}, KnownEx: map[int]string{}}
 	ctx := &EvalCtx{Stats: wo.Stats}
 
@@ -204,8 +206,13 @@ func worker(id, tier string, idx, W int, seed int64, out string) {
 		defer f.Close()
 	}
 	// evaluate returns the violations not covered by a known finding
+	track := os.Getenv("VERIF_TRACK_CASE") // crash triage: the case about to run is left in this file
 	evaluate := func(cs *Case, st *Stats) []Violation {
 		ctx.Stats = st
+		if track != "" {
+			cj, _ := json.Marshal(cs)
+			os.WriteFile(track, cj, 0o644)
+		}
 		vs := prop.Eval(cs, ctx)
 		if dlog != nil && st != nil {
 			cj, _ := json.Marshal(cs)
@@ -478,9 +485,10 @@ func driver(id, tier string) int {
 	st := selfTests(id, tier, seed, self)
 
 	type wres struct {
-		out *WorkerOut
-		err error
-		log string
+		out      *WorkerOut
+		err      error
+		log      string
+		timedOut bool
 	}
 	results := make([]wres, W)
 	done := make(chan int, W)
@@ -488,58 +496,122 @@ func driver(id, tier string) int {
 	if tier == "thorough" {
 		limit = 5 * time.Hour
 	}
+	runWorker := func(i int, extraEnv ...string) wres {
+		outFile := filepath.Join(tmp, fmt.Sprintf("w%d.json", i))
+		os.Remove(outFile)
+		ws := absSeed(seed)*1000 + int64(i) + 1
+		cmd := exec.Command(self, "worker", id, tier, strconv.Itoa(i), strconv.Itoa(W), strconv.FormatInt(ws, 10), outFile)
+		cmd.Env = append(append(os.Environ(), "GOMAXPROCS=2"), extraEnv...)
+		var buf headTailBuf
+		cmd.Stdout, cmd.Stderr = &buf, &buf
+		if err := cmd.Start(); err != nil {
+			return wres{err: err}
+		}
+		timedOut := false
+		timer := time.AfterFunc(limit, func() { timedOut = true; cmd.Process.Kill() })
+		err := cmd.Wait()
+		timer.Stop()
+		if err != nil {
+			return wres{err: err, log: buf.String(), timedOut: timedOut}
+		}
+		b, err := os.ReadFile(outFile)
+		if err != nil {
+			return wres{err: err, log: buf.String()}
+		}
+		var wo WorkerOut
+		if err := json.Unmarshal(b, &wo); err != nil {
+			return wres{err: err}
+		}
+		return wres{out: &wo}
+	}
 	for i := 0; i < W; i++ {
 		go func(i int) {
 			defer func() { done <- i }()
-			outFile := filepath.Join(tmp, fmt.Sprintf("w%d.json", i))
-			ws := absSeed(seed)*1000 + int64(i) + 1
-			cmd := exec.Command(self, "worker", id, tier, strconv.Itoa(i), strconv.Itoa(W), strconv.FormatInt(ws, 10), outFile)
-			cmd.Env = append(os.Environ(), "GOMAXPROCS=2")
-			var buf bytes.Buffer
-			cmd.Stdout, cmd.Stderr = &buf, &buf
-			if err := cmd.Start(); err != nil {
-				results[i] = wres{err: err}
-				return
-			}
-			timer := time.AfterFunc(limit, func() { cmd.Process.Kill() })
-			err := cmd.Wait()
-			timer.Stop()
-			if err != nil {
-				results[i] = wres{err: err, log: buf.String()}
-				return
-			}
-			b, err := os.ReadFile(outFile)
-			if err != nil {
-				results[i] = wres{err: err, log: buf.String()}
-				return
-			}
-			var wo WorkerOut
-			if err := json.Unmarshal(b, &wo); err != nil {
-				results[i] = wres{err: err}
-				return
-			}
-			results[i] = wres{out: &wo}
+			results[i] = runWorker(i)
 		}(i)
 	}
 	for i := 0; i < W; i++ {
 		<-done
 	}
 	total := NewStats()
+	triaged := 0
 	knownHits := map[int]int64{}
 	knownEx := map[int]string{}
 	var failures []Failure
 	var nRandom, nSystem int64
 	for i, r := range results {
 		if r.err != nil {
-			// A worker died (Go fatal error, watchdog, ...). This is harness
-			// trouble unless it reproduces as a violation, which a dead
-			// worker cannot tell us: exit 2.
-			tail := r.log
-			if len(tail) > 3000 {
-				tail = tail[len(tail)-3000:]
+			// A worker died. If it was the Go runtime that killed it (a fatal error such as
+			// the goroutine stack ceiling, which nothing in the process can recover), the case
+			// that did it is found by running the same worker again with case tracking — the
+			// worker is deterministic — and is then judged with every run in a process of its
+			// own, where the plain build of the tree settles whether the interpreter really
+			// dies (execFresh). A violation found that way is reported; if the plain build
+			// survives, the worker is run once more with twice the stack ceiling. Anything
+			// else (watchdog, unreadable output, a crash that does not recur) is harness
+			// trouble: exit 2.
+			fmt.Fprintf(os.Stderr, "worker %d failed: %v\n%s\n", i, r.err, r.log)
+			if r.timedOut {
+				return 2
 			}
-			fmt.Fprintf(os.Stderr, "worker %d failed: %v\n%s\n", i, r.err, tail)
-			return 2
+			trackFile := filepath.Join(tmp, fmt.Sprintf("track%d.json", i))
+			r2 := runWorker(i, "VERIF_TRACK_CASE="+trackFile)
+			if r2.err == nil {
+				fmt.Fprintf(os.Stderr, "worker %d: the crash did not recur\n", i)
+				return 2
+			}
+			cj, err := os.ReadFile(trackFile)
+			if err != nil {
+				return 2
+			}
+			var cc Case
+			if err := json.Unmarshal(cj, &cc); err != nil {
+				return 2
+			}
+			cc.AllFresh = true
+			rf := ReplayFile{Property: id, Class: "worker-crash", Sig: cc.Sig, Message: "this case killed the process it ran in", Seed: seed, Tier: tier, Case: &cc}
+			dir := filepath.Join(verifDir(), "replays", id)
+			os.MkdirAll(dir, 0o755)
+			path := filepath.Join(dir, fmt.Sprintf("%d-crash-%016x.json", seed, hash64(string(cj))))
+			b, _ := json.MarshalIndent(rf, "", " ")
+			if err := os.WriteFile(path, b, 0o644); err != nil {
+				fatal2("%v", err)
+			}
+			cmd := exec.Command(self, "replay", path)
+			cmd.Env = append(os.Environ(), "VERIF_REPLAY_JSON=1")
+			outb, err := cmd.Output()
+			if err != nil {
+				fmt.Fprintf(os.Stderr, "triage of %s failed to run: %v\n", path, err)
+				return 2
+			}
+			var ro ReplayOut
+			if err := json.Unmarshal(outb, &ro); err != nil {
+				return 2
+			}
+			var crashV *Violation
+			for k := range ro.Violations {
+				if matchKnown(known, ro.Violations[k]) < 0 {
+					crashV = &ro.Violations[k]
+					break
+				}
+			}
+			if crashV != nil {
+				rf.Class, rf.Sig, rf.Message, rf.Digest = crashV.Class, crashV.Sig, crashV.Msg, ro.Digest
+				b, _ := json.MarshalIndent(rf, "", " ")
+				os.WriteFile(path, b, 0o644)
+				fmt.Printf("violation class=%s sig=%q: %s (found by crash triage: the case killed worker %d)\n", crashV.Class, crashV.Sig, oneLine(crashV.Msg), i)
+				fmt.Printf("VIOLATION property=%s replay=%s\n", id, path)
+				return 1
+			}
+			os.Remove(path)
+			fmt.Fprintf(os.Stderr, "worker %d: the plain build survives the case (%s); running the worker again with twice the stack ceiling\n", i, cc.Sig)
+			r3 := runWorker(i, "VERIF_STACK_X2=1")
+			if r3.err != nil {
+				fmt.Fprintf(os.Stderr, "worker %d failed again: %v\n%s\n", i, r3.err, r3.log)
+				return 2
+			}
+			r = r3
+			triaged++
 		}
 		total.Merge(r.out.Stats)
 		for k, n := range r.out.KnownHits {
@@ -553,6 +625,9 @@ func driver(id, tier string) int {
 		nSystem += r.out.System
 	}
 
+	if triaged > 0 {
+		fmt.Printf("note: %d worker(s) were run again with twice the goroutine stack ceiling after the plain build survived the case that killed them\n", triaged)
+	}
 	// known findings that were observed
 	var kIdx []int
 	for k := range knownHits {
@@ -648,6 +723,43 @@ func driver(id, tier string) int {
 		}
 	}
 	return exit
+}
+
+// headTailBuf keeps the first and the last 3000 bytes written to it (a Go crash dump:
+// the cause is at the top, the rest is goroutine traces).
+type headTailBuf struct {
+	head, tail []byte
+	n          int
+}
+
+func (b *headTailBuf) Write(p []byte) (int, error) {
+	b.n += len(p)
+	if room := 3000 - len(b.head); room > 0 {
+		k := len(p)
+		if k > room {
+			k = room
+		}
+		b.head = append(b.head, p[:k]...)
+		p2 := p[k:]
+		b.tail = append(b.tail, p2...)
+	} else {
+		b.tail = append(b.tail, p...)
+	}
+	if len(b.tail) > 6000 {
+		b.tail = append([]byte(nil), b.tail[len(b.tail)-3000:]...)
+	}
+	return len(p), nil
+}
+
+func (b *headTailBuf) String() string {
+	t := b.tail
+	if len(t) > 3000 {
+		t = t[len(t)-3000:]
+	}
+	if len(t) == 0 {
+		return string(b.head)
+	}
+	return string(b.head) + "\n[...]\n" + string(t)
 }
 
 func absSeed(s int64) int64 {
